@@ -161,12 +161,16 @@ type node struct {
 	forced   bool    // entry lockset forced empty (exported, go target, escapes as a value)
 	why      string  // why forced
 	param    *pparam // literal bound to a parameter of an analysed function
+	bind     *site   // ... at this call site
 	sites    []site  // static call sites
 	entry    lockset // fixpoint result
 	nlits    int
 	parent   *node
 	analysed bool
 }
+
+// forcedByValueUse: the function may be called from places we do not see
+func (n *node) forcedByValueUse() bool { return n.forced && n.why != "exported" }
 
 type site struct {
 	from *node
@@ -222,6 +226,9 @@ type analysis struct {
 	deferred map[string]bool
 	fresh    map[*types.Var]token.Pos // fresh local -> escape position
 	rootDecl *node
+	gotos    map[string][]*rel // states at goto statements, per label (current function)
+	ptrAlias map[*types.Var][2]string // non-escaping local p := &x.f...  ->  (type, field)
+	leaks    map[*types.Func]bool
 }
 
 type frame struct {
@@ -359,6 +366,7 @@ const (
 	cAddrElse // &x.f anywhere else
 	cPath     // struct-valued prefix of a longer selector: no access of its own
 	cLockRecv // receiver of a Lock/Unlock call
+	cSyncRecv // receiver of another sync.* / atomic.* method
 )
 
 func kindOf(c ctx) string {
@@ -367,7 +375,7 @@ func kindOf(c ctx) string {
 		return "KRead"
 	case cWrite:
 		return "KWrite"
-	case cAtomic:
+	case cAtomic, cSyncRecv:
 		return "KAtomic"
 	case cAddrArg:
 		return "KAddrArg"
@@ -425,6 +433,57 @@ func (a *analysis) rootFresh(e ast.Expr, pos token.Pos) bool {
 	}
 }
 
+// localValueRoot: the selector chain reaches, through struct-valued fields only, a local
+// variable (or parameter) of struct VALUE type: the location lives in that variable.
+func (a *analysis) localValueRoot(e ast.Expr) bool {
+	for {
+		switch x := e.(type) {
+		case *ast.ParenExpr:
+			e = x.X
+			continue
+		case *ast.SelectorExpr:
+			sel := a.info().Selections[x]
+			if sel == nil || sel.Kind() != types.FieldVal {
+				return false
+			}
+			if t := a.info().TypeOf(x.X); t == nil || isPointer(t) {
+				return false
+			}
+			e = x.X
+			continue
+		case *ast.Ident:
+			v, ok := a.info().Uses[x].(*types.Var)
+			if !ok || v.IsField() || v.Pkg() == nil || v.Parent() == v.Pkg().Scope() {
+				return false
+			}
+			_, isStruct := v.Type().Underlying().(*types.Struct)
+			return isStruct
+		}
+		return false
+	}
+}
+
+// syncCallback: functions outside the analysed packages known to call their function
+// argument synchronously, on the calling goroutine, without retaining it.
+func syncCallback(f *types.Func) bool {
+	if f == nil || f.Pkg() == nil {
+		return false
+	}
+	name := f.Pkg().Path() + "." + f.Name()
+	if sig, ok := f.Type().(*types.Signature); ok && sig.Recv() != nil {
+		if n := namedOf(sig.Recv().Type()); n != nil {
+			name = f.Pkg().Path() + "." + n.Obj().Name() + "." + f.Name()
+		}
+	}
+	switch name {
+	case "sort.Slice", "sort.SliceStable", "sort.Search", "sort.SliceIsSorted", "slices.SortFunc",
+		"slices.SortStableFunc", "slices.IndexFunc", "slices.ContainsFunc", "strings.Map",
+		"strings.IndexFunc", "strings.FieldsFunc", "bytes.IndexFunc", "sync.Once.Do":
+		return true
+	}
+	return false
+}
+
 func (a *analysis) expr(e ast.Expr, c ctx) {
 	if e == nil {
 		return
@@ -437,6 +496,17 @@ func (a *analysis) expr(e ast.Expr, c ctx) {
 	case *ast.SelectorExpr:
 		a.selector(x, c)
 	case *ast.StarExpr:
+		if id, isId := x.X.(*ast.Ident); isId {
+			if v, ok := a.info().Uses[id].(*types.Var); ok {
+				if al, ok := a.ptrAlias[v]; ok {
+					kc := c
+					if kc == cPath || kc == cLockRecv || kc == cSyncRecv {
+						kc = cRead
+					}
+					a.record(al[0], al[1], kindOf(kc), x.Pos(), false)
+				}
+			}
+		}
 		a.expr(x.X, cRead)
 	case *ast.UnaryExpr:
 		switch x.Op {
@@ -547,7 +617,7 @@ func (a *analysis) global(o *types.Var, c ctx, pos token.Pos) {
 	if !a.globalsW[o] {
 		return // never written after package initialisation: immutable
 	}
-	if k := syncKind(o.Type()); k != "" && (c == cLockRecv || c == cAtomic || c == cPath) {
+	if k := syncKind(o.Type()); k != "" && (c == cLockRecv || c == cAtomic || c == cSyncRecv || c == cPath) {
 		if k == "sync" {
 			a.record("$"+o.Pkg().Name(), o.Name(), "KAtomic", pos, false)
 		}
@@ -585,6 +655,9 @@ func (a *analysis) selector(x *ast.SelectorExpr, c ctx) {
 				recordHere = false
 			}
 		}
+		if recordHere && a.localValueRoot(x) {
+			recordHere = false // a field of a struct VALUE held in a local variable (a copy)
+		}
 		if recordHere {
 			kc := c
 			if kc == cPath || kc == cLockRecv {
@@ -593,10 +666,31 @@ func (a *analysis) selector(x *ast.SelectorExpr, c ctx) {
 			if sk != "" && (c == cAtomic || c == cPath) {
 				kc = cAtomic
 			}
+			if c == cSyncRecv {
+				// receiver of a method of a sync.* type: through a pointer field it is a read
+				// of the field, on a value field it is a synchronisation operation on it
+				if isPointer(ft) {
+					kc = cRead
+				} else {
+					kc = cAtomic
+				}
+			}
 			a.record(tname, fv.Name(), kindOf(kc), x.Sel.Pos(), a.rootFresh(x, x.Pos()))
 		}
 		// the operand
 		xt := a.info().TypeOf(x.X)
+		if id, isId := x.X.(*ast.Ident); isId {
+			if v, ok := a.info().Uses[id].(*types.Var); ok {
+				if al, ok := a.ptrAlias[v]; ok {
+					// p.g where p := &y.f[...] : also an access of y.f
+					kc := c
+					if kc == cPath || kc == cLockRecv || kc == cSyncRecv {
+						kc = cRead
+					}
+					a.record(al[0], al[1], kindOf(kc), x.Sel.Pos(), false)
+				}
+			}
+		}
 		if xt != nil && isPointer(xt) {
 			a.expr(x.X, cRead)
 		} else if ok {
@@ -1009,8 +1103,12 @@ func (a *analysis) call(c *ast.CallExpr, how string) {
 		return
 	case "syncmethod":
 		// method of a sync.* / atomic.* value: a synchronisation operation on the field
-		a.expr(cl.sel.X, cAtomic)
-		a.args(c, nil, cRead)
+		a.expr(cl.sel.X, cSyncRecv)
+		if syncCallback(cl.fn) && how == "call" {
+			a.syncArgs(c)
+		} else {
+			a.args(c, nil, cRead)
+		}
 		return
 	case "litcall":
 		fun := c.Fun
@@ -1068,7 +1166,11 @@ func (a *analysis) call(c *ast.CallExpr, how string) {
 	if cl.kind == "node" || cl.kind == "iface" {
 		target = cl.nodes
 	}
-	a.args(c, target, cAddrArg)
+	if cl.kind == "foreign" && syncCallback(cl.fn) && how == "call" {
+		a.syncArgs(c)
+	} else {
+		a.args(c, target, cAddrArg)
+	}
 	st := siteState()
 	for _, n := range target {
 		n.sites = append(n.sites, site{a.cur, st})
@@ -1129,6 +1231,9 @@ func (a *analysis) args(c *ast.CallExpr, target []*node, addr ctx) {
 			n := a.litNode(x)
 			if pp := a.targetParam(target, i); pp != nil && !n.forced && n.param == nil {
 				n.param = pp
+				n.bind = &site{a.cur, a.st.clone()}
+			} else if n.param != nil && n.param == a.targetParam(target, i) {
+				n.bind = &site{a.cur, a.st.clone()} // re-analysis in a loop fixpoint: latest state
 			} else if !(n.param != nil && n.param == a.targetParam(target, i)) {
 				a.force(n, "literal passed to a function that is not analysed")
 			}
@@ -1168,6 +1273,20 @@ func (a *analysis) args(c *ast.CallExpr, target []*node, addr ctx) {
 					continue
 				}
 			}
+		}
+		a.expr(arg, cRead)
+	}
+}
+
+// syncArgs: arguments of a call to a foreign function that runs its callback synchronously:
+// a function literal argument is analysed as if called in place.
+func (a *analysis) syncArgs(c *ast.CallExpr) {
+	for _, arg := range c.Args {
+		if fl, ok := arg.(*ast.FuncLit); ok {
+			n := a.litNode(fl)
+			n.sites = append(n.sites, site{a.cur, a.st.clone()})
+			a.analyseLit(n)
+			continue
 		}
 		a.expr(arg, cRead)
 	}
@@ -1215,16 +1334,68 @@ func (a *analysis) analyseLit(n *node) {
 		// re-analysed on every pass of an enclosing loop fixpoint: facts are keyed by position
 	}
 	n.analysed = true
-	saveCur, saveSt, saveFrames, saveDef := a.cur, a.st, a.frames, a.deferred
-	a.cur, a.st, a.frames, a.deferred = n, newRel(), nil, map[string]bool{}
+	saveCur, saveSt, saveFrames, saveDef, saveGotos := a.cur, a.st, a.frames, a.deferred, a.gotos
+	a.cur, a.st, a.frames, a.deferred, a.gotos = n, newRel(), nil, map[string]bool{}, map[string][]*rel{}
 	a.block(n.lit.Body.List)
-	a.cur, a.st, a.frames, a.deferred = saveCur, saveSt, saveFrames, saveDef
+	a.cur, a.st, a.frames, a.deferred, a.gotos = saveCur, saveSt, saveFrames, saveDef, saveGotos
 }
 
 func (a *analysis) block(list []ast.Stmt) {
-	for _, s := range list {
+	for i, s := range list {
+		if ls, ok := s.(*ast.LabeledStmt); ok && a.isGotoTarget(ls.Label.Name) {
+			// a label that is the target of a goto: the rest of the block is iterated to a
+			// fixpoint with the states of all gotos joined in at the label
+			lbl := ls.Label.Name
+			in := a.st.clone()
+			h := in.clone()
+			for _, g := range a.gotos[lbl] {
+				h = meet(h, g)
+			}
+			for iter := 0; iter < 50; iter++ {
+				a.gotos[lbl] = nil
+				a.st = h.clone()
+				a.stmt(ls.Stmt, lbl)
+				for _, r := range list[i+1:] {
+					a.stmt(r, "")
+				}
+				h2 := in.clone()
+				for _, g := range a.gotos[lbl] {
+					h2 = meet(h2, g)
+				}
+				h2 = meet(h2, h)
+				if h2.equal(h) {
+					return
+				}
+				h = h2
+			}
+			a.unknown("goto-fixpoint-not-reached", ls.Label)
+			a.st = newRel()
+			a.st.unlockUnknown()
+			return
+		}
 		a.stmt(s, "")
 	}
+}
+
+func (a *analysis) isGotoTarget(label string) bool {
+	root := a.cur
+	for root.parent != nil {
+		root = root.parent
+	}
+	var body *ast.BlockStmt
+	if a.cur.lit != nil {
+		body = a.cur.lit.Body
+	} else {
+		body = root.decl.Body
+	}
+	found := false
+	ast.Inspect(body, func(n ast.Node) bool {
+		if b, ok := n.(*ast.BranchStmt); ok && b.Tok == token.GOTO && b.Label != nil && b.Label.Name == label {
+			found = true
+		}
+		return !found
+	})
+	return found
 }
 
 func (a *analysis) findFrame(label string, needLoop bool) *frame {
@@ -1307,6 +1478,9 @@ func (a *analysis) stmt(s ast.Stmt, label string) {
 					}
 				}
 			}
+			if a.aliasDef(x, i, r) {
+				continue
+			}
 			a.expr(r, cRead)
 		}
 		for i, l := range x.Lhs {
@@ -1345,8 +1519,8 @@ func (a *analysis) stmt(s ast.Stmt, label string) {
 			}
 			a.st = bottom()
 		case token.GOTO:
-			a.unknown("goto", x)
-			a.st.unlockUnknown()
+			a.gotos[lbl] = append(a.gotos[lbl], a.st.clone())
+			a.st = bottom()
 		case token.FALLTHROUGH:
 			a.unknown("fallthrough", x)
 		}
@@ -1417,6 +1591,106 @@ func (a *analysis) stmt(s ast.Stmt, label string) {
 	default:
 		a.unknown("statement", s)
 	}
+}
+
+// aliasDef: p := &y.f / &y.f[i] / &y.f.g where p never escapes the function (it is only
+// dereferenced or used to select fields).  The definition is then a read of the path, and
+// every use of p is recorded as an access of the field as well (see selector / StarExpr).
+func (a *analysis) aliasDef(as *ast.AssignStmt, i int, r ast.Expr) bool {
+	if as.Tok != token.DEFINE || len(as.Lhs) != len(as.Rhs) {
+		return false
+	}
+	u, ok := r.(*ast.UnaryExpr)
+	if !ok || u.Op != token.AND {
+		return false
+	}
+	id, ok := as.Lhs[i].(*ast.Ident)
+	if !ok {
+		return false
+	}
+	v, ok := a.info().Defs[id].(*types.Var)
+	if !ok {
+		return false
+	}
+	// the field of interest the address points into: the outermost interest field on the path
+	var typ, field string
+	e := u.X
+	for e != nil {
+		switch x := e.(type) {
+		case *ast.ParenExpr:
+			e = x.X
+		case *ast.IndexExpr:
+			e = x.X
+		case *ast.SelectorExpr:
+			sel := a.info().Selections[x]
+			if sel == nil || sel.Kind() != types.FieldVal {
+				e = nil
+				break
+			}
+			if typ == "" {
+				owner, fv := fieldOwner(sel)
+				if tn, ok := a.typeName(owner); ok {
+					typ, field = tn, fv.Name()
+				}
+			}
+			if t := a.info().TypeOf(x.X); t != nil && isPointer(t) {
+				e = nil
+			} else {
+				e = x.X
+			}
+		default:
+			e = nil
+		}
+	}
+	if typ == "" {
+		return false
+	}
+	// every use of p must be *p or p.g (a field), outside function literals
+	root := a.cur
+	for root.parent != nil {
+		root = root.parent
+	}
+	if a.cur.lit != nil || root.decl == nil {
+		return false
+	}
+	okUse := true
+	var stack []ast.Node
+	ast.Inspect(root.decl.Body, func(nd ast.Node) bool {
+		if nd == nil {
+			stack = stack[:len(stack)-1]
+			return true
+		}
+		stack = append(stack, nd)
+		uid, isId := nd.(*ast.Ident)
+		if !isId || a.info().Uses[uid] != v {
+			return true
+		}
+		for _, s := range stack {
+			if _, isLit := s.(*ast.FuncLit); isLit {
+				okUse = false
+			}
+		}
+		if len(stack) < 2 {
+			okUse = false
+			return true
+		}
+		switch par := stack[len(stack)-2].(type) {
+		case *ast.StarExpr:
+		case *ast.SelectorExpr:
+			if sel := a.info().Selections[par]; par.X != uid || sel == nil || sel.Kind() != types.FieldVal {
+				okUse = false
+			}
+		default:
+			okUse = false
+		}
+		return true
+	})
+	if !okUse {
+		return false
+	}
+	a.ptrAlias[v] = [2]string{typ, field}
+	a.expr(u.X, cRead)
+	return true
 }
 
 func (a *analysis) loop(label string, head, body, post func(), noCond bool) {
@@ -1625,6 +1899,24 @@ func (a *analysis) computeFresh(n *node) {
 					// an access of x.f, not as an escape of x
 					return true
 				}
+				// x.m(...) where m is a method of the analysed packages that does not let its
+				// receiver escape
+				if sel := info.Selections[se]; sel != nil && sel.Kind() == types.MethodVal && len(stack) >= 3 {
+					if ce, ok := stack[len(stack)-3].(*ast.CallExpr); ok && ce.Fun == se {
+						spawned := false
+						if len(stack) >= 4 {
+							switch stack[len(stack)-4].(type) {
+							case *ast.GoStmt, *ast.DeferStmt:
+								spawned = true
+							}
+						}
+						if f, ok := sel.Obj().(*types.Func); ok && !spawned {
+							if leak, known := a.leaks[f.Origin()]; known && !leak {
+								return true
+							}
+						}
+					}
+				}
 			}
 		}
 		mark(v, id.Pos())
@@ -1632,6 +1924,85 @@ func (a *analysis) computeFresh(n *node) {
 	})
 	for v, p := range esc {
 		a.fresh[v] = p
+	}
+}
+
+// computeLeaks: which methods may let their receiver escape (stored, passed on, captured by
+// a function literal, used by a go statement).  Greatest fixpoint: a method is non-leaking
+// when its receiver is only used to select fields or to call non-leaking methods.
+func (a *analysis) computeLeaks() {
+	a.leaks = map[*types.Func]bool{}
+	type m struct {
+		f    *types.Func
+		n    *node
+		recv *types.Var
+	}
+	var ms []m
+	for f, n := range a.byFunc {
+		if n.decl == nil || n.decl.Recv == nil || len(n.decl.Recv.List) == 0 || len(n.decl.Recv.List[0].Names) == 0 {
+			if n.decl != nil && n.decl.Recv != nil {
+				a.leaks[f] = false // receiver unnamed: never used
+			}
+			continue
+		}
+		rv, _ := n.pkg.TypesInfo.Defs[n.decl.Recv.List[0].Names[0]].(*types.Var)
+		if rv == nil {
+			continue
+		}
+		a.leaks[f] = false
+		ms = append(ms, m{f, n, rv})
+	}
+	for changed := true; changed; {
+		changed = false
+		for _, x := range ms {
+			if a.leaks[x.f] {
+				continue
+			}
+			info := x.n.pkg.TypesInfo
+			leak := false
+			var stack []ast.Node
+			ast.Inspect(x.n.decl.Body, func(nd ast.Node) bool {
+				if nd == nil {
+					stack = stack[:len(stack)-1]
+					return true
+				}
+				stack = append(stack, nd)
+				id, ok := nd.(*ast.Ident)
+				if !ok || info.Uses[id] != x.recv {
+					return true
+				}
+				for _, s := range stack {
+					switch s.(type) {
+					case *ast.FuncLit, *ast.GoStmt, *ast.DeferStmt:
+						leak = true
+					}
+				}
+				if len(stack) >= 2 {
+					if se, ok := stack[len(stack)-2].(*ast.SelectorExpr); ok && se.X == id {
+						sel := info.Selections[se]
+						if sel != nil && sel.Kind() == types.FieldVal {
+							// &r.f taken or stored still counts as an access of the field, not of r
+							return true
+						}
+						if sel != nil && sel.Kind() == types.MethodVal && len(stack) >= 3 {
+							if ce, ok := stack[len(stack)-3].(*ast.CallExpr); ok && ce.Fun == se {
+								if f, ok := sel.Obj().(*types.Func); ok {
+									if l, known := a.leaks[f.Origin()]; known && !l {
+										return true
+									}
+								}
+							}
+						}
+					}
+				}
+				leak = true
+				return true
+			})
+			if leak {
+				a.leaks[x.f] = true
+				changed = true
+			}
+		}
 	}
 }
 
@@ -1698,6 +2069,7 @@ func run(pkgs []*packages.Package, interest map[*types.TypeName]string, allStruc
 		params: map[*types.Var]*pparam{}, litVar: map[*types.Var]*node{},
 		facts: map[string]*rawFact{}, chans: map[string]chanFact{}, gos: map[string]goFact{},
 		unks: map[string]unkFact{}, globalsW: map[*types.Var]bool{}, universe: map[string]bool{},
+		ptrAlias: map[*types.Var][2]string{},
 	}
 	root := pkgs[0]
 	for _, p := range pkgs {
@@ -1818,12 +2190,13 @@ func run(pkgs []*packages.Package, interest map[*types.TypeName]string, allStruc
 			}
 		}
 	}
+	a.computeLeaks()
 	// analyse bodies
 	for _, n := range append([]*node{}, a.nodes...) {
 		if n.decl == nil {
 			continue
 		}
-		a.cur, a.st, a.frames, a.deferred = n, newRel(), nil, map[string]bool{}
+		a.cur, a.st, a.frames, a.deferred, a.gotos = n, newRel(), nil, map[string]bool{}, map[string][]*rel{}
 		a.computeFresh(n)
 		a.block(n.decl.Body.List)
 		n.analysed = true
@@ -1887,6 +2260,27 @@ func (a *analysis) fixpoint() {
 			var e lockset
 			if n.param != nil {
 				e = n.param.entry
+				if n.bind != nil && !n.param.forced && len(n.param.forwards) == 0 && len(n.param.sites) > 0 {
+					// one level of context: the parameter is only called inside its owner, whose
+					// entry is, for this literal, the state at the call that passes the literal
+					local := true
+					for _, s := range n.param.sites {
+						if s.from != n.param.owner {
+							local = false
+						}
+					}
+					if local && !n.param.owner.forcedByValueUse() {
+						at := n.bind.st.apply(n.bind.from.entry, u)
+						if n.bind.from.entry == nil {
+							at = nil
+						}
+						var e2 lockset
+						for _, s := range n.param.sites {
+							e2 = lsMeet(e2, s.st.apply(at, u))
+						}
+						e = e2
+					}
+				}
 			} else if len(n.sites) == 0 {
 				e = lockset{} // no static call site: claim nothing
 			}
@@ -2130,7 +2524,7 @@ var interestTable = map[string][]string{
 	"/compress/gzip":   {"Codec", "reader", "writer"},
 	"/compress/snappy": {"Codec", "reader", "writer", "xerialReader", "xerialWriter"},
 	"/compress/lz4":    {"Codec", "reader", "writer"},
-	"/compress/zstd":   {"Codec", "reader", "writer", "encoder"},
+	"/compress/zstd":   {"Codec", "reader", "writer"},
 }
 
 func main() {
@@ -2156,6 +2550,7 @@ func main() {
 	interest := map[*types.TypeName]string{}
 	var typesSeen []string
 	var fields, exported [][2]string
+	var fieldTypes [][3]string
 	var missing []string
 	var sufs []string
 	for s := range interestTable {
@@ -2188,6 +2583,7 @@ func main() {
 			if st, ok := obj.Type().Underlying().(*types.Struct); ok {
 				for i := 0; i < st.NumFields(); i++ {
 					fields = append(fields, [2]string{disp, st.Field(i).Name()})
+					fieldTypes = append(fieldTypes, [3]string{disp, st.Field(i).Name(), types.TypeString(st.Field(i).Type(), func(p *types.Package) string { return p.Name() })})
 				}
 			}
 			ms := types.NewMethodSet(types.NewPointer(obj.Type()))
@@ -2221,7 +2617,7 @@ func main() {
 		fmt.Print(text)
 	}
 	if *jsonOut != "" {
-		b, _ := json.MarshalIndent(map[string]interface{}{"counts": counts, "missing": missing, "facts": a.outFacts()}, "", " ")
+		b, _ := json.MarshalIndent(map[string]interface{}{"counts": counts, "missing": missing, "facts": a.outFacts(), "fields": fieldTypes, "globals": gv}, "", " ")
 		os.WriteFile(*jsonOut, b, 0o644)
 	}
 	cb, _ := json.Marshal(counts)
